@@ -147,7 +147,7 @@ const enMaxCallDepth = 1000
 type enWorld struct {
 	prog    *enProg
 	funcs   map[string]*enFunc
-	files   map[string]string
+	files   map[string][]byte // existing files; appends are amortised
 	outS    map[string]string // stream id -> file it writes
 	inS     map[string]*enReader
 	stdout  strings.Builder
@@ -163,6 +163,7 @@ type enWorld struct {
 	steps   int
 	budget  int
 	marks   map[string]int // what happened, for the distribution
+	retVal  enVal
 }
 
 type enBudget struct{}
@@ -229,22 +230,22 @@ func (w *enWorld) write(s *enS, text string) {
 		f := enTarget(id)
 		switch id {
 		case "c1": // cat > file
-			w.files[f] = ""
+			w.files[f] = []byte{}
 		case "c2": // cat >> file
 			if _, ok := w.files[f]; !ok {
-				w.files[f] = ""
+				w.files[f] = []byte{}
 			}
 		default:
 			if s.Mode == ">" {
-				w.files[f] = ""
+				w.files[f] = []byte{}
 			} else if _, ok := w.files[f]; !ok {
-				w.files[f] = ""
+				w.files[f] = []byte{}
 			}
 		}
 		w.outS[id] = f
 		w.marks["opened:"+id+s.Mode]++
 	}
-	w.files[w.outS[id]] += text
+	w.files[w.outS[id]] = append(w.files[w.outS[id]], text...)
 }
 
 func (w *enWorld) closeStream(id string) int {
@@ -270,7 +271,7 @@ func (w *enWorld) getlineFile(id string) (int, string) {
 		if !exists {
 			return -1, ""
 		}
-		lines := strings.Split(content, "\n")
+		lines := strings.Split(string(content), "\n")
 		if lines[len(lines)-1] == "" {
 			lines = lines[:len(lines)-1]
 		}
@@ -397,20 +398,12 @@ func (w *enWorld) eval(e *enE) enVal {
 		if len(w.frames) > w.marks["max-depth"] {
 			w.marks["max-depth"] = len(w.frames)
 		}
-		ret := func() (ret enVal) {
-			defer func() {
-				w.frames = w.frames[:len(w.frames)-1]
-				if r := recover(); r != nil {
-					if t, ok := r.(enThrow); ok && t.kind == "return" {
-						ret = t.val
-						return
-					}
-					panic(r)
-				}
-			}()
-			w.execList(f.Body, false)
-			return enVal{}
-		}()
+		// exit / next / a run-time error leave through a panic caught at the top level, which drops all frames
+		ret := enVal{}
+		if w.execList(f.Body, false) == enFlowReturn {
+			ret = w.retVal
+		}
+		w.frames = w.frames[:len(w.frames)-1]
 		return ret
 	case "err":
 		w.fail(e.V)
@@ -428,12 +421,12 @@ func (w *enWorld) eval(e *enE) enVal {
 		w.marks["snapshots"]++
 		content, ok := w.files[enTarget(e.V)]
 		if _, has := w.files["log"]; !has {
-			w.files["log"] = ""
+			w.files["log"] = []byte{}
 		}
 		if !ok {
 			return enNum(1)
 		}
-		w.files["log"] += content
+		w.files["log"] = append(w.files["log"], content...)
 		return enNum(0)
 	case "getl":
 		rec, ok := w.nextRecord()
@@ -463,6 +456,7 @@ const (
 	enFlowNone = iota
 	enFlowBreak
 	enFlowContinue
+	enFlowReturn
 )
 
 func (w *enWorld) execList(ss []*enS, inLoop bool) int {
@@ -522,6 +516,8 @@ func (w *enWorld) exec(s *enS, inLoop bool) int {
 			w.tick()
 			if f := w.execList(s.Body, true); f == enFlowBreak {
 				break
+			} else if f == enFlowReturn {
+				return f
 			}
 			w.set(s.V, enNum(w.get(s.V).num()+1))
 		}
@@ -530,6 +526,8 @@ func (w *enWorld) exec(s *enS, inLoop bool) int {
 			w.tick()
 			if f := w.execList(s.Body, true); f == enFlowBreak {
 				break
+			} else if f == enFlowReturn {
+				return f
 			}
 		}
 	case "whileget": // while ((getline gl < file) > 0) body
@@ -544,6 +542,8 @@ func (w *enWorld) exec(s *enS, inLoop bool) int {
 			}
 			if f := w.execList(s.Body, true); f == enFlowBreak {
 				break
+			} else if f == enFlowReturn {
+				return f
 			}
 		}
 	case "exit":
@@ -561,7 +561,11 @@ func (w *enWorld) exec(s *enS, inLoop bool) int {
 		if s.E != nil {
 			v = w.eval(s.E)
 		}
-		panic(enThrow{kind: "return", val: v})
+		if len(w.frames) == 0 {
+			panic(enUnsupported("return outside a function"))
+		}
+		w.retVal = v
+		return enFlowReturn
 	case "break":
 		return enFlowBreak
 	case "continue":
@@ -597,10 +601,10 @@ func (w *enWorld) guarded(f func()) (how string) {
 
 // enEvaluate runs the program. ok=false: the case is outside what the reference covers (step budget, generator slip) and is skipped.
 func enEvaluate(p *enProg, input []string, init map[string]string) (res enResult, marks map[string]int, ok bool, why string) {
-	w := &enWorld{prog: p, funcs: map[string]*enFunc{}, files: map[string]string{}, outS: map[string]string{}, inS: map[string]*enReader{},
+	w := &enWorld{prog: p, funcs: map[string]*enFunc{}, files: map[string][]byte{}, outS: map[string]string{}, inS: map[string]*enReader{},
 		globals: map[string]enVal{}, input: input, budget: 400000, marks: map[string]int{}}
 	for k, v := range init {
-		w.files[k] = v
+		w.files[k] = []byte(v)
 	}
 	for _, f := range p.Funcs {
 		w.funcs[f.Name] = f
@@ -618,7 +622,10 @@ func enEvaluate(p *enProg, input []string, init map[string]string) (res enResult
 		}
 	}()
 	finish := func(how string) (enResult, map[string]int, bool, string) {
-		res := enResult{Out: w.stdout.String(), Files: w.files, Status: w.status, Ending: "normal"}
+		res := enResult{Out: w.stdout.String(), Files: map[string]string{}, Status: w.status, Ending: "normal"}
+		for k, v := range w.files {
+			res.Files[k] = string(v)
+		}
 		if strings.HasPrefix(how, "error:") {
 			res.Err, res.ErrKind, res.Status, res.Ending = true, how[6:], 0, "error"
 		} else if how == "exit" {
